@@ -15,9 +15,9 @@ CLAIMS = {
     "C19": {
         "level": "other",
         "technique": "static obligation analysis over the monomorphic call graph from the three derived Arbitrary impls (all features + arbitrary), each unwrap / unsafe call / pointer cast / assert discharged by a typed template over HIR slots or a path-summary rule (lengths vs capacities on every path, value-range intervals, dataflow on the Unstructured, repr(transparent) pointer chain, who-may-call)",
-        "text": "All 54 obligations in the reachable /repo instances (per monomorphic instance) are discharged by closed-form templates: array conversions of exactly the requested length, lengths clamped to the target capacity, loop maximum = vector capacity, unchecked UTF-8 on the validated prefix of the same buffer, "
+        "text": "All 54 obligations in the reachable /repo instances (per monomorphic instance) are discharged by closed-form templates: array conversions of exactly the requested length, lengths clamped to the target capacity, loop maximum / drawn iteration count = vector capacity, unchecked UTF-8 on the validated prefix of the same buffer, "
                 "transparent pointer cast with an audited single caller, derive(Arbitrary)'s selector arithmetic. Validity of produced values then follows from the container type invariants. Relative to arbitrary 1.4.2's documented contracts.",
-        "note": DEPS + "Trusted: arbitrary 1.4.2 (bytes(n) returns exactly n bytes, peek_bytes does not consume, arbitrary_loop honours max, derive expansion). Not decided: formatting/cloning/dispatching the value.",
+        "note": DEPS + "Trusted: arbitrary 1.4.2 (bytes(n) returns exactly n bytes, peek_bytes does not consume, arbitrary_loop honours max, int_in_range returns a value of its range, derive expansion). Not decided: formatting/cloning/dispatching the value.",
     },
     "C13": {
         "level": "other",
@@ -29,10 +29,10 @@ CLAIMS = {
     },
     "C14": {
         "level": "other",
-        "technique": "static error-discipline / who-may-call rules on the path summaries (one symbolic loop iteration, loop-carried locals followed through the trace, generic helpers and their closure arguments expanded) of the two hand-written filtering visit_seq decoders; decision table of the known-parameter conversion over a probe domain; constants and capacities from rustc's evaluated tables",
+        "technique": "static error-discipline / who-may-call rules on the path summaries (one symbolic loop iteration, loop-carried locals followed through the trace, generic helpers and their closure arguments expanded; a shared generic visitor audited from the decoder through serde's deserialize_seq -> visit_seq contract) of the two hand-written filtering visit_seq decoders; decision table of the known-parameter conversion over a probe domain; constants and capacities from rustc's evaluated tables",
         "text": "Decides that the only failure of either list decoder is a CBOR fault in next_element, that unknown entries continue / set the flag, that known entries are appended in input order by push with its Result discarded (first N by capacity), "
                 "that the accepted set is exactly {type == \"public-key\", alg in {-7,-8}} / {\"none\",\"packed\"}, and that the capacities equal the number of known values. This fixes the filters' input/output relation for every list.",
-        "note": DEPS + "Relative to heapless Vec::push and cbor-smol's SeqAccess.",
+        "note": DEPS + "Relative to heapless Vec::push, cbor-smol's SeqAccess and serde's Deserializer::deserialize_seq contract (the visitor's visit_seq is called with the sequence, or the call fails without it).",
     },
     "C07": {
         "level": "other",
